@@ -6,34 +6,47 @@ From AL Require Import Base.CaseLib.
 Import ListNotations.
 Open Scope Qc_scope.
 
-Record st := ST { count : Qc; pending : list (Qc * list Qc); playing : list (list Qc); fin : bool }.
+(* Round 3: the mixer never inspects its data: the only operation on the zero value and the items is `data += item`
+   (for immutable values: data = data + item), applied in the order of the playing list.  So the model is parametric
+   in the value type and its addition (no law is assumed: not commutative, not associative - str / tuple
+   concatenation and IEEE float addition are instances, see Check.v); times (count, deltas) stay exact rationals. *)
+Record addable := Addable { carrier :> Type; madd : carrier -> carrier -> carrier }.
+Canonical Structure Qc_addable := Addable Qc Qcplus.
+
+Record st {M : addable} := ST { count : Qc; pending : list (Qc * list M); playing : list (list M); fin : bool }.
+Arguments st : clear implicits.
+Arguments ST {M} _ _ _ _.
+Arguments count {M} _.
+Arguments pending {M} _.
+Arguments playing {M} _.
+Arguments fin {M} _.
 Definition half : Qc := qc 1 2.
-Definition init : st := ST half [] [] false.
+Definition init {M : addable} : st M := ST half [] [] false.
 
 (* Streamix.add: negative delta -> ValueError (None), else enqueue.
    (Enqueuing on a finished mixer is allowed by the code and has no effect on the output.) *)
-Definition add (s : st) (d : Qc) (data : list Qc) : option st :=
+Definition add {M : addable} (s : st M) (d : Qc) (data : list M) : option (st M) :=
   if Qc_ltb d 0 then None
   else Some (ST (count s) (pending s ++ [(d, data)]) (playing s) (fin s)).
 
 (* "while self._not_playing and count >= self._not_playing[0][0]" *)
-Fixpoint start (c : Qc) (pend : list (Qc * list Qc)) (play : list (list Qc))
-  : Qc * list (Qc * list Qc) * list (list Qc) :=
+Fixpoint start {M : addable} (c : Qc) (pend : list (Qc * list M)) (play : list (list M))
+  : Qc * list (Qc * list M) * list (list M) :=
   match pend with
   | (d, data) :: r => if Qc_leb d c then start (c - d) r (play ++ [data]) else (c, pend, play)
   | [] => (c, pend, play)
   end.
 
 (* "data = zero; for snd in playing: data += next(snd)" ; exhausted ones are removed *)
-Definition sum_heads (zero : Qc) (play : list (list Qc)) : Qc :=
-  fold_left (fun acc p => match p with x :: _ => acc + x | [] => acc end) play zero.
-Definition advance (play : list (list Qc)) : list (list Qc) :=
+Definition sum_heads {M : addable} (zero : M) (play : list (list M)) : M :=
+  fold_left (fun acc p => match p with x :: _ => madd M acc x | [] => acc end) play zero.
+Definition advance {M : addable} (play : list (list M)) : list (list M) :=
   flat_map (fun p => match p with _ :: r => [r] | [] => [] end) play.
 
 Definition is_nil {T} (l : list T) : bool := match l with [] => true | _ => false end.
 
 (* one next(): None = StopIteration *)
-Definition next (keep : bool) (zero : Qc) (s : st) : option Qc * st :=
+Definition next {M : addable} (keep : bool) (zero : M) (s : st M) : option M * st M :=
   if fin s then (None, s) else
   let '(c, pend, play) := start (count s) (pending s) (playing s) in
   let data := sum_heads zero play in
@@ -42,17 +55,19 @@ Definition next (keep : bool) (zero : Qc) (s : st) : option Qc * st :=
   then (Some data, ST (c + 1) pend play' false)
   else (None, ST c pend play' true).
 
-Inductive op := Add (d : Qc) (data : list Qc) | Next.
-Inductive out := OAdded | ORejected | OItem (q : Qc) | OStop.
+Inductive op {M : addable} := Add (d : Qc) (data : list M) | Next.
+Inductive out {M : addable} := OAdded | ORejected | OItem (q : M) | OStop.
+Arguments op : clear implicits.
+Arguments out : clear implicits.
 
-Definition step (keep : bool) (zero : Qc) (s : st) (o : op) : st * out :=
+Definition step {M : addable} (keep : bool) (zero : M) (s : st M) (o : op M) : st M * out M :=
   match o with
   | Add d data => match add s d data with Some s' => (s', OAdded) | None => (s, ORejected) end
   | Next => let '(r, s') := next keep zero s in
             (s', match r with Some q => OItem q | None => OStop end)
   end.
 
-Fixpoint run (keep : bool) (zero : Qc) (s : st) (ops : list op) : list out :=
+Fixpoint run {M : addable} (keep : bool) (zero : M) (s : st M) (ops : list (op M)) : list (out M) :=
   match ops with
   | [] => []
   | o :: r => let '(s', x) := step keep zero s o in x :: run keep zero s' r
@@ -77,8 +92,8 @@ Inductive side := SideA | SideB.
 Definition side_eqb (a b : side) : bool :=
   match a, b with SideA, SideA | SideB, SideB => true | _, _ => false end.
 
-Fixpoint run2 (ka : bool) (za : Qc) (kb : bool) (zb : Qc) (sa sb : st) (ops : list (side * op))
-  : list (side * out) :=
+Fixpoint run2 {M : addable} (ka : bool) (za : M) (kb : bool) (zb : M) (sa sb : st M) (ops : list (side * op M))
+  : list (side * out M) :=
   match ops with
   | [] => []
   | (SideA, o) :: r => let '(sa', x) := step ka za sa o in (SideA, x) :: run2 ka za kb zb sa' sb r
